@@ -3,6 +3,7 @@ re-extracted on every run into lean/CffiVerif/Generated/OwnershipSteps.lean.
 
   cdatagcp_finalize       copy destructor/origobj to locals, NULL both fields, then gcp_finalize(locals)
   cdatagcp_dealloc        copy to locals, untrack, cdata_dealloc, then gcp_finalize(locals)
+  cdatagcp_traverse       the members visited for the cycle collector (destructor and origobj)
   explicit_release_case   which cdata type gets which case number (anything else: ValueError)
   cdata_exit              what each case does (struct pointer: finalize the struct if it is a wrapper;
                           from_buffer: PyBuffer_Release; wrapper: cdatagcp_finalize)
@@ -94,6 +95,11 @@ def extract(repo):
     out = {}
     out["cdatagcp_finalize"] = classify("cdatagcp_finalize", statements(func_body(src, "cdatagcp_finalize")), FIN_TABLE)
     out["cdatagcp_dealloc"] = classify("cdatagcp_dealloc", statements(func_body(src, "cdatagcp_dealloc")), FIN_TABLE)
+
+    # cdatagcp_traverse: the members the cycle collector is told about
+    out["gcp_traverse"] = classify("cdatagcp_traverse", statements(func_body(src, "cdatagcp_traverse")), [
+        (r"[{}]", None), (r"return 0", None),
+        (r"Py_VISIT\(cd->destructor\)", ".destructor"), (r"Py_VISIT\(cd->origobj\)", ".origobj")])
 
     # explicit_release_case: type test -> case number
     st = statements(func_body(src, "explicit_release_case"))
@@ -210,6 +216,10 @@ inductive FinStep
   | call (d o : Src)
   deriving DecidableEq, Repr
 
+/-- members of the wrapper visited by `cdatagcp_traverse` (tp_traverse) -/
+inductive Member | destructor | origobj
+  deriving DecidableEq, Repr
+
 inductive RelType | owningPtrOrArray | frombuf | wrapper
   deriving DecidableEq, Repr
 
@@ -227,6 +237,7 @@ inductive HandleStep
 
 def cdatagcp_finalize : List FinStep := %s
 def cdatagcp_dealloc : List FinStep := %s
+def gcp_traverse : List Member := %s
 /-- `explicit_release_case`: cdata type ↦ case number (every other cdata: ValueError) -/
 def release_case : List (RelType × Nat) := %s
 /-- `cdata_exit`: case number ↦ what is done -/
@@ -237,7 +248,7 @@ def new_handle : List HandleStep := %s
 def from_handle : List HandleStep := %s
 
 end CffiVerif.Generated.OwnershipSteps
-""" % (lean_list(ex["cdatagcp_finalize"]), lean_list(ex["cdatagcp_dealloc"]),
+""" % (lean_list(ex["cdatagcp_finalize"]), lean_list(ex["cdatagcp_dealloc"]), lean_list(ex["gcp_traverse"]),
        lean_list("(%s, %d)" % (ty[t], n) for t, n in ex["release_case"]),
        lean_list("(%d, %s)" % (n, a) for n, a in ex["exit_actions"]),
        lean_list(ex["gc_none"]), lean_list(ex["handle_dealloc"]), lean_list(ex["new_handle"]),
